@@ -32,7 +32,9 @@ RULE = ('tables of 2-6 columns x 30-300 rows drawn from a Gaussian copula: a ran
         'below 1e-5 of the magnitude or below 1e-8 absolute); labels are shuffled strings '
         '(incl. spaces / non-ASCII / "0") or unsorted ints; crossed with the five configuration forms (default '
         'Univariate selection [sparingly: 8 candidate fits per column], a class, a fully-qualified-name string, an '
-        'instance, a per-column dict of classes/strings/instances, complete or partial, matched or deliberately '
+        'instance, a per-column dict of classes/strings/instances whose KEY ORDER and coverage vary: table order, reversed, '
+        'shuffled, only the last / an inner column, a shuffled subset, a leading run, an unknown key in front (missing '
+        'columns get the default selection); int-keyed dicts on numpy-array training tables; matched or deliberately '
         'mismatched families so that the Gaussian fall-back is exercised), model seeds int / RandomState / None, and per '
         'fitted model three sample sizes n from {1..200} drawn consecutively from the same model.  Every real '
         'sample(n) runs with np.random.multivariate_normal wrapped by a recorder (restored afterwards); the first '
@@ -201,7 +203,7 @@ def gen_table(rng, nr, rows=None, allow_kde=True):
 
 
 def gen_config(rng, tab, quick):
-    """-> JSON-able spec: ['default'] | [form, ClassName] | ['dict', {enc_label: [form, ClassName]}]."""
+    """-> JSON-able spec: ['default'] | [form, ClassName] | ['dict', [[enc_label, [form, ClassName]], ...]] (ordered)."""
     def pick_single():
         pool = list(FAST) * (4 if quick else 2) + list(SLOW)
         return rng.choice(pool)
@@ -211,16 +213,54 @@ def gen_config(rng, tab, quick):
         return ['default']
     if r < 0.50:
         return [rng.choice(['class', 'str', 'inst']), pick_single()]
-    d = {}
-    partial = rng.random() < 0.15
-    for i, (lab, kind) in enumerate(zip(tab['labels'], tab['kinds'])):
-        if partial and i == len(tab['labels']) - 1:
-            continue                                       # missing key -> DEFAULT_DISTRIBUTION (Univariate)
+    labs, kinds = list(tab['labels']), list(tab['kinds'])
+    items = []
+    for lab, kind in zip(labs, kinds):
         name = KIND2CLASS[kind] if rng.random() < 0.8 else rng.choice(list(FAST) + list(SLOW))
         if quick and name in SLOW and rng.random() < 0.5:
             name = rng.choice(FAST)
-        d[enc_label(lab)] = [rng.choice(['class', 'str', 'inst']), name]
-    return ['dict', d]
+        items.append([enc_label(lab), [rng.choice(['class', 'str', 'inst']), name]])
+    return ['dict', shape_dict(rng, items)]
+
+
+DICT_SHAPES = ('full-in-order', 'full-reversed', 'full-shuffled', 'last-only', 'inner-only', 'subset-shuffled',
+               'leading-run', 'unknown-key-first')
+
+
+def shape_dict(rng, items, shape=None):
+    """the ORDER and COVERAGE of a per-column dict are part of the configuration: keys in table order, reversed,
+    shuffled, only the last / an inner column, a shuffled subset, a leading run, an unknown key in front.  Missing
+    columns get DEFAULT_DISTRIBUTION (Univariate selection), so at most 2 columns are left out."""
+    shape = shape or rng.choice(DICT_SHAPES)
+    k = len(items)
+    if shape == 'full-reversed':
+        out = items[::-1]
+    elif shape == 'full-shuffled':
+        out = items[:]
+        rng.shuffle(out)
+        if k > 1 and out == items:
+            out = items[1:] + items[:1]
+    elif shape == 'last-only':
+        out = items[-1:] if k <= 3 else [items[-1]] + items[1:-2]
+    elif shape == 'inner-only':
+        out = [items[k // 2]] if k <= 3 else [items[k // 2]] + [it for i, it in enumerate(items) if i not in (0, k // 2, k - 1)]
+    elif shape == 'subset-shuffled':
+        drop = set(rng.sample(range(k), min(2, k - 1)))
+        out = [it for i, it in enumerate(items) if i not in drop]
+        rng.shuffle(out)
+    elif shape == 'leading-run':
+        out = items[:max(1, k - rng.choice([1, 2]))]
+    elif shape == 'unknown-key-first':
+        out = [['s:' + 'nope'.encode().hex(), ['class', 'UniformUnivariate']]] + items[::-1]
+    else:
+        out = items[:]
+    return out
+
+
+def dict_items(spec):
+    """ordered (label token, leaf) pairs of a dict spec (older replays stored a JSON object)."""
+    body = spec[1]
+    return [list(x) for x in body.items()] if isinstance(body, dict) else [list(x) for x in body]
 
 
 def build_config(spec):
@@ -233,7 +273,7 @@ def build_config(spec):
     if spec[0] == 'default':
         return None
     if spec[0] == 'dict':
-        return {dec_label(k): leaf(*v) for k, v in spec[1].items()}
+        return {dec_label(k): leaf(*v) for k, v in dict_items(spec)}
     return leaf(*spec)
 
 
@@ -248,15 +288,20 @@ def gen_seed(rng):
 
 def make_case(rng, nr, quick, **kw):
     tab = gen_table(rng, nr, **kw)
+    ndarray = False
+    if isinstance(tab['labels'][0], int) and rng.random() < 0.4:
+        # the training table is a numpy array: fit() labels its columns 0..k-1, a dict is keyed by those ints
+        tab['labels'] = list(range(len(tab['labels'])))
+        ndarray = True
     return {'labels': tab['labels'], 'cols': [c.tolist() for c in tab['cols']], 'kinds': tab['kinds'],
-            'descr': tab['descr'], 'config': gen_config(rng, tab, quick), 'seed': gen_seed(rng)}
+            'descr': tab['descr'], 'config': gen_config(rng, tab, quick), 'seed': gen_seed(rng), 'ndarray': ndarray}
 
 
 def case_input(case, **extra):
     """JSON-able, exactly replayable rendering of a case."""
     d = {'labels': [enc_label(x) for x in case['labels']], 'readable_labels': [repr(x) for x in case['labels']],
          'cols_hex': [[vc.f2h(v) for v in c] for c in case['cols']], 'kinds': case['kinds'],
-         'config': case['config'], 'seed': case['seed']}
+         'config': case['config'], 'seed': case['seed'], 'ndarray': bool(case.get('ndarray'))}
     d.update(extra)
     return d
 
@@ -272,7 +317,7 @@ def brief(case, **extra):
 def case_from_input(inp):
     return {'labels': [dec_label(t) for t in inp['labels']],
             'cols': [[vc.h2f(h) for h in c] for c in inp['cols_hex']], 'kinds': inp.get('kinds', []),
-            'descr': [], 'config': inp['config'], 'seed': inp['seed']}
+            'descr': [], 'config': inp['config'], 'seed': inp['seed'], 'ndarray': bool(inp.get('ndarray'))}
 
 
 # --------------------------------------------------------------------------------------------- the real code
@@ -309,7 +354,7 @@ def fit_model(case):
     state = np.random.get_state()
     try:
         np.random.seed(s % (2 ** 32))
-        model.fit(X)
+        model.fit(X.to_numpy() if case.get('ndarray') else X)
     finally:
         np.random.set_state(state)
     return model, X
@@ -455,7 +500,8 @@ def schema_problems(model, case, out, n, draws=None):
     got = list(out.columns)
     if len(got) != len(labels) or any(type(a) is not type(b) and not (isinstance(a, (int, np.integer)) and isinstance(b, (int, np.integer))) or a != b
                                       for a, b in zip(got, labels)):
-        probs.append(('labels', [repr(x) for x in got]))
+        probs.append(('labels', {'sampled_columns': [repr(x) for x in got], 'training_columns': [repr(x) for x in labels],
+                                 'model_columns': [repr(x) for x in (model.columns or [])]}))
         return probs
     if len(out) != n:
         probs.append(('rows', len(out)))
@@ -562,8 +608,21 @@ def empirical_law_problems(case, unis, cols):
             D = ks_two_sample(tr, v)
             band = dkw_eps(len(tr)) + dkw_eps(len(v)) + 0.15
             if not D <= band:
-                out.append(('sample-not-like-training-data', j, {'ks_two_sample': D, 'band': band, 'requested': rq},
-                            f'KS(training ECDF, sample ECDF) <= {band:.3f}'))
+                # whose fault?  If the FITTED cdf is already far from the training ECDF the fit did not recover the
+                # marginal (reported per family at entry point fit, e.g. scipy's gamma.fit stuck at loc = min(X));
+                # otherwise the sample does not follow a marginal that fits the data.
+                Dfit = ks_distance(tr, unis[j].cdf)
+                if Dfit > dkw_eps(len(tr)) + 0.1:
+                    out.append(('fit:marginal-not-recovered-' + type(unis[j]).__name__, j,
+                                {'ks_training_vs_fitted_cdf': Dfit, 'ks_two_sample': D, 'requested': rq, 'generating': kind,
+                                 'fitted': {k_: float(v_) for k_, v_ in (getattr(unis[j], '_params', None) or {}).items()
+                                            if isinstance(v_, (int, float, np.floating))}},
+                                'the marginal fitted with the generating family is within DKW(n_train) + 0.1 of the '
+                                'training ECDF (generating marginals are recovered)'))
+                else:
+                    out.append(('sample-not-like-training-data', j, {'ks_two_sample': D, 'band': band, 'requested': rq,
+                                                                     'ks_training_vs_fitted_cdf': Dfit},
+                                f'KS(training ECDF, sample ECDF) <= {band:.3f}'))
     return out
 
 
@@ -641,6 +700,11 @@ def tie_case(ctx, lean, case, ns, note):
     ctx.count('labels:' + ('int' if isinstance(case['labels'][0], int) else 'str'))
     ctx.count('seed:' + case['seed'][0])
     ctx.count('ncols:%d' % d)
+    ctx.count('input:' + ('ndarray' if case.get('ndarray') else 'DataFrame'))
+    if form == 'dict':
+        keys = [k for k, _ in dict_items(case['config'])]
+        lead = keys == [enc_label(x) for x in case['labels']][:len(keys)]
+        ctx.count('dict-keys:' + ('leading-run-in-table-order' if lead else 'non-leading-or-permuted'))
     for kd in case['kinds']:
         ctx.count('train-kind:' + kd)
     try:
@@ -678,6 +742,8 @@ def tie_case(ctx, lean, case, ns, note):
         note('corr:fit-columns', {'model': reply[:200], 'real_columns': real_cols,
                                   'real_constant_override': [has_constant_override(u) for u in unis],
                                   'case': brief(case)})
+    if real_cols != [enc_label(x) for x in case['labels']]:
+        return        # corr:fit-columns is broken; the index-based comparisons below would be misaligned
     status = [col_status(unis[j], case['cols'][j]) if j < len(unis) else 'const' for j in range(d)]
     for sname in status:
         ctx.count('column-status:' + sname)
@@ -766,7 +832,8 @@ def requested_classes(case):
     if spec[0] == 'default':
         return ['Univariate'] * len(case['labels'])
     if spec[0] == 'dict':
-        return [spec[1].get(enc_label(lab), [None, 'Univariate'])[1] for lab in case['labels']]
+        d_ = {k: v for k, v in dict_items(spec)}
+        return [d_.get(enc_label(lab), [None, 'Univariate'])[1] for lab in case['labels']]
     return [spec[1]] * len(case['labels'])
 
 
@@ -872,6 +939,13 @@ def search(ctx, deep):
         oracle_case(ctx, case, stats, schema_ns=[rng2.randint(2, 200)], big=True, light=not deep)
     for t in range((3 if quick else 8) if deep else 1):
         dependence_oracle(ctx, dependence_case(rng2, nr2), stats)
+    # per-column dicts whose key order / coverage differs from the table's column order: schema only (cheap)
+    rng3 = ctx.rng('search', 'dict-shapes')
+    nr3 = ctx.nprng('search', 'dict-shapes')
+    for rep in range(3 if deep else 1):
+        for case in dict_shape_cases(rng3, nr3):
+            stats['dict_shape_cases'] = stats.get('dict_shape_cases', 0) + 1
+            oracle_case(ctx, case, stats, schema_ns=[1, rng3.randint(2, 60)], big=False)
     if deep:
         for t in range(3 if quick else 8):
             recovery_experiment(ctx, rng, nr, stats, use_default=(t == 0))
@@ -908,6 +982,42 @@ def correlation_entry_problems(case, model, unis, regular):
     return out
 
 
+def dict_shape_cases(rng, nr):
+    """one small table per dict shape whose keys are NOT a leading run of the table's columns in table order
+    (+ a numpy training table with an int-keyed dict): the order of `sample(n).columns` must be the TABLE's."""
+    out = []
+    for shape in ('full-reversed', 'full-shuffled', 'last-only', 'inner-only', 'subset-shuffled', 'unknown-key-first',
+                  'ndarray-int-keys'):
+        k = rng.choice([3, 4, 5])
+        n = rng.choice([40, 60, 90])
+        R, L = random_correlation(rng, nr, k)
+        Z = nr.randn(n, k) @ L.T
+        kinds = [rng.choice(['gaussian', 'uniform', 'gamma']) for _ in range(k)]
+        if rng.random() < 0.5:
+            kinds[rng.randrange(k)] = 'const'
+        cols, descr = [], []
+        for j, kd in enumerate(kinds):
+            if kd == 'const':
+                cols.append(np.full(n, 2.5))
+                descr.append('const(2.5)')
+                continue
+            q, dsc = marginal(rng, kd)
+            cols.append(np.asarray(q(Z[:, j]), dtype=float))
+            descr.append(dsc)
+        nd = shape == 'ndarray-int-keys'
+        if nd:
+            labels = list(range(k))
+        elif rng.random() < 0.3:
+            labels = rng.sample(range(0, 40), k)
+        else:
+            labels = rng.sample(['income', 'age', 'flag', 'ratio', 'z', 'b', 'A', 'w w'], k)
+        items = [[enc_label(lab), [rng.choice(['class', 'str', 'inst']), KIND2CLASS[kd]]] for lab, kd in zip(labels, kinds)]
+        spec = ['dict', shape_dict(rng, items, 'subset-shuffled' if nd else shape)]
+        out.append({'labels': labels, 'cols': [c.tolist() for c in cols], 'kinds': kinds, 'descr': descr,
+                    'config': spec, 'seed': ['int', rng.randrange(2 ** 31)], 'ndarray': nd})
+    return out
+
+
 def scale_stress_case(rng, nr, deep):
     """a table whose NON-constant columns live on awkward scales (epoch seconds within a few hours, readings ~1e-9,
     1000 + 1e-3 y), an ordinary column and a truly constant flag; Gaussian marginals in the five configuration forms."""
@@ -931,10 +1041,11 @@ def scale_stress_case(rng, nr, deep):
     if form == 'default':
         spec = ['default']
     elif form == 'dict':
-        spec = ['dict', {enc_label(lab): [rng.choice(['class', 'str', 'inst']),
-                                          rng.choice(['GaussianUnivariate', 'GaussianUnivariate', 'GaussianKDE',
-                                                      'UniformUnivariate'])]
-                         for lab in labels}]
+        spec = ['dict', shape_dict(rng, [[enc_label(lab), [rng.choice(['class', 'str', 'inst']),
+                                                            rng.choice(['GaussianUnivariate', 'GaussianUnivariate',
+                                                                        'GaussianKDE', 'UniformUnivariate'])]]
+                                         for lab in labels],
+                                   rng.choice(['full-in-order', 'full-reversed', 'full-shuffled']))]
     else:
         spec = [form, 'GaussianUnivariate']
     return {'labels': labels, 'cols': [c.tolist() for c in cols], 'kinds': kinds, 'descr': descr, 'config': spec,
@@ -972,8 +1083,9 @@ def dependence_case(rng, nr):
     labels = rng.sample(['a', 'b', 'c', 'd', 'e', 10, 3, 7, 21], 4)
     if any(isinstance(x, int) for x in labels) and not all(isinstance(x, int) for x in labels):
         labels = [str(x) for x in labels]
-    spec = ['dict', {enc_label(lab): [rng.choice(['class', 'str', 'inst']), KIND2CLASS[kd]]
-                     for lab, kd in zip(labels, kinds)}]
+    spec = ['dict', shape_dict(rng, [[enc_label(lab), [rng.choice(['class', 'str', 'inst']), KIND2CLASS[kd]]]
+                                     for lab, kd in zip(labels, kinds)],
+                               rng.choice(['full-in-order', 'full-reversed', 'full-shuffled']))]
     return {'labels': labels, 'cols': [c.tolist() for c in cols], 'kinds': kinds, 'descr': descr, 'config': spec,
             'seed': ['int', rng.randrange(2 ** 31)], 'true_rho': rho}
 
@@ -996,6 +1108,8 @@ def dependence_oracle(ctx, case, stats):
         return
     for what, obs in schema_problems(model, case, out, N_BIG, calls[0]['out'] if len(calls) == 1 else None):
         ctx.fail_input('GaussianMultivariate.sample', inp, obs, 'schema', f'GaussianMultivariate.sample:schema-{what}')
+    if not columns_in_table_order(ctx, case, model, N_BIG):
+        return
     unis = list(model.univariates)
     d = len(case['labels'])
     regular = [j for j in range(d) if col_status(unis[j], case['cols'][j]) == 'regular']
@@ -1097,6 +1211,21 @@ def tail_hunt(ctx, case, model, stats, budget):
                        'normal draws are extreme', f'{ep}:schema-{what}')
 
 
+def columns_in_table_order(ctx, case, model, n=None):
+    """`model.columns` (hence univariates / correlation labels / sample columns) must be the table's column order; the
+    index-based oracles below are only meaningful then.  -> bool"""
+    want = [enc_label(x) for x in case['labels']]
+    got = [enc_label(x) for x in (model.columns or [])]
+    if got == want:
+        return True
+    ctx.fail_input('GaussianMultivariate.fit', case_input(case, **({} if n is None else {'n': n})),
+                   {'model_columns': [repr(x) for x in (model.columns or [])],
+                    'training_columns': [repr(x) for x in case['labels']]},
+                   'model.columns (and univariates, correlation labels, sample columns) follow the training table\'s '
+                   'column order', 'GaussianMultivariate.fit:columns-not-in-table-order')
+    return False
+
+
 def oracle_case(ctx, case, stats, schema_ns, big, only=None, hunt=0, light=False):
     """C01 on the real code for one fitted model.  `only` restricts to one failure class (replay)."""
     ep = 'GaussianMultivariate.sample'
@@ -1123,6 +1252,8 @@ def oracle_case(ctx, case, stats, schema_ns, big, only=None, hunt=0, light=False
             ctx.fail_input(ep, case_input(case, n=n), obs,
                            'exactly n rows, the training labels in training order, finite float columns (no NaN / inf), '
                            'constant training columns reproduced exactly', f'{ep}:schema-{what}')
+    if not columns_in_table_order(ctx, case, model, N_BIG if big else None):
+        return
     if hunt:
         tail_hunt(ctx, case, model, stats, hunt)
         model, X = fit_model(case)          # fresh model: the hunt re-seeded the other one
@@ -1153,7 +1284,11 @@ def oracle_case(ctx, case, stats, schema_ns, big, only=None, hunt=0, light=False
     # against the training data: no non-constant column collapses, the sample looks like the column
     stats['empirical_law_checks'] = stats.get('empirical_law_checks', 0) + 1
     for what, j, obs, req in empirical_law_problems(case, unis, cols):
-        ctx.fail_input(ep, case_input(case, n=n, column=j), obs, req, f'{ep}:{what}')
+        if what.startswith('fit:'):
+            ctx.fail_input('GaussianMultivariate.fit', case_input(case, n=n, column=j), obs, req,
+                           'GaussianMultivariate.' + what)
+        else:
+            ctx.fail_input(ep, case_input(case, n=n, column=j), obs, req, f'{ep}:{what}')
     stats['correlation_entry_checks'] = stats.get('correlation_entry_checks', 0) + 1
     for pair, obs in correlation_entry_problems(case, model, unis, nonconst):
         ctx.fail_input('GaussianMultivariate.fit', case_input(case, n=N_BIG, columns=pair), obs,
@@ -1239,8 +1374,8 @@ def recovery_experiment(ctx, rng, nr, stats, use_default=False):
         fams.append((kind, dist))
         cols.append(dist.ppf(st.norm.cdf(Z[:, j])))
     labels = rng.sample(['a', 'b', 'c', 'd', 'e'], k)
-    spec = ['default'] if use_default else ['dict', {enc_label(lab): [rng.choice(['class', 'str', 'inst']), KIND2CLASS[kd]]
-                                                      for lab, (kd, _) in zip(labels, fams)}]
+    spec = ['default'] if use_default else ['dict', [[enc_label(lab), [rng.choice(['class', 'str', 'inst']), KIND2CLASS[kd]]]
+                                                      for lab, (kd, _) in zip(labels, fams)]]
     case = {'labels': labels, 'cols': [np.asarray(c, dtype=float).tolist() for c in cols],
             'kinds': [kd for kd, _ in fams], 'descr': [], 'config': spec, 'seed': ['int', rng.randrange(2 ** 31)]}
     ep = 'GaussianMultivariate.fit'
@@ -1253,6 +1388,8 @@ def recovery_experiment(ctx, rng, nr, stats, use_default=False):
                        'fit + sample succeed', ep + ':recovery-raises')
         return
     small = {'kinds': case['kinds'], 'config': spec, 'seed': case['seed'], 'true_corr': R.tolist(), 'N': N}
+    if not columns_in_table_order(ctx, case, model, N_BIG):
+        return
     for what, obs in schema_problems(model, case, out, N_BIG, rcalls[0]['out'] if len(rcalls) == 1 else None):
         ctx.fail_input('GaussianMultivariate.sample', case_input(case, n=N_BIG), obs,
                        'schema: finite float cells, n rows, training labels in order',
